@@ -325,7 +325,7 @@ func (e *Exec) applyContract(ct *Contract, fn *ssa.Function, args []Val, reach T
 	if len(res) == 1 && len(res[0].L) == 1 {
 		for i, en := range ct.Ensures {
 			be, ok := en.E.(*ast.BinaryExpr)
-			if !ok || be.Op != token.EQL {
+			if !ok || be.Op != token.EQL || ct.mentionsGhost(en.Src) {
 				continue
 			}
 			if id, ok := be.X.(*ast.Ident); !ok || id.Name != "result" {
@@ -356,7 +356,9 @@ func (e *Exec) applyContract(ct *Contract, fn *ssa.Function, args []Val, reach T
 		}
 	}
 	for i, en := range ct.Ensures {
-		if defined[i] {
+		if defined[i] || ct.mentionsGhost(en.Src) {
+			// a clause over the callee's own ghost variables is bookkeeping of the callee's unit:
+			// proved there, meaningless (and not assumed) at a call site
 			continue
 		}
 		g := e.evalSpecBool(en, post, nil, nil)
